@@ -9,6 +9,14 @@ namespace QV
 def G (k : Kind) (c t : List Nat) (p : List Angle := []) (paulis : List Nat := []) : Gate :=
   { kind := k, controls := c, targets := t, params := p, paulis := paulis }
 
+/-- squared norm of row 0 as an element of the exact ring (`Poly.conj` is a syntactic operation) -/
+def Mat.row0Norm (m : Mat) : Poly := Mat.dot ((m.getD 0 []).map Poly.conj) (m.getD 0 [])
+
+/-- non-vanishing certificate: row 0 of the integer-scaled matrix has squared norm `2^k`, as it must
+    for `(1/√2)^k · m` unitary.  Used only as a linear combination of the row-0 entries that equals a
+    non-zero constant (soundness: `Proof/NzSound.smat_nz_sound`). -/
+def SMat.nz (a : SMat) : Bool := Mat.row0Norm a.m == Poly.const (2 ^ a.k)
+
 structure Template where
   nq : Nat
   target : Gate
@@ -20,6 +28,8 @@ namespace Template
 def check (t : Template) : Bool := SMat.propTo (circMat t.nq t.body) (t.target.mat t.nq)
 /-- body = target exactly (phase included) -/
 def checkExact (t : Template) : Bool := SMat.eq (circMat t.nq t.body) (t.target.mat t.nq)
+/-- neither side vanishes, for any assignment of the angles (certificate, see `SMat.nz`) -/
+def nz (t : Template) : Bool := SMat.nz (circMat t.nq t.body) && SMat.nz (t.target.mat t.nq)
 end Template
 
 end QV
